@@ -43,7 +43,7 @@ def run(ctx, only=None):
                 "kind masks, skips, outcome, stage/hitl)")
     ctx.prove()
     rng = random.Random(ctx.seed)
-    n = ctx.n(1500, 25000)
+    n = ctx.n(1500, 10000)
     small = []
     if ctx.tier == "thorough" and only is None:
         # small-scope exhaustive stream: all 1- and 2-step graphs over {StartEvent, StopEvent, EvA, MyIR}
